@@ -393,11 +393,13 @@ func (r *rxRunner) consumeUntilW(script []string, nilAt int, firstNoWait bool) {
 				case "eof":
 					return false, io.EOF
 				case "err":
+					// the boolean beside an error says nothing: "done" and an error is an error all the same
+					done := cbs%3 == 0
 					if cbs%2 == 0 {
 						// another error, which merely wraps io.EOF (only the unwrapped io.EOF is special)
-						return false, errCbWrapsEOF
+						return done, errCbWrapsEOF
 					}
-					return false, errCb
+					return done, errCb
 				}
 				return false, nil
 			}
